@@ -7,7 +7,10 @@ Contracts, evaluated on the REAL compile()/convert():
                  length <= 3 followed by the observed call; thorough L=5) occurs as a contiguous run of calls in some worker
                  process (a de Bruijn sequence B(|pool|, L), cut into chunks that overlap by L-1 calls).  The canonical bytes of
                  EVERY call's result must equal the bytes the same call produces ALONE in a FRESH process.
-  R  (reuse)     one ExplorerScriptSsbCompiler instance used for several files gives the same as fresh instances.
+  R  (reuse)     one ExplorerScriptSsbCompiler instance used for several files gives the same as fresh instances: all pairs over
+                 the pool's compile calls and 11 import-chain calls that share one directory (imports failing at depth 2 with a
+                 parse error / missing file / routine / compile error, a failing text compiled under the NAME of a file that
+                 later calls import, valid importers of the same files), and all triples of the import-chain calls.
   T  (twice)     the same decompiler input *objects* decompiled again (second instance over the same op objects; convert() a
                  second time on the same instance) give the same text and source map as the first time.
   F  (frame)     convert() leaves the caller's routine set unchanged: offsets, op codes and every parameter value
@@ -16,6 +19,15 @@ Contracts, evaluated on the REAL compile()/convert():
   I  (indent)    a string parameter object that was printed at one indent and is then printed elsewhere (same object reachable
                  from two ops - what the compiler's macro substitution produces - or reused in a second routine set) does not
                  change later output.
+  O  (order)     a large and diverse pool of routine sets (compiler output of >= 700 programs of gen/programs.py - a stride sample
+                 of every exhaustive family plus seeded random programs - and of props.C10.valid_corpus) is decompiled in K = 4
+                 (thorough 8) orders (identity, reversed, seeded shuffles), each order in its own fresh process; the canonical bytes
+                 of every input must be the same in all K processes.  Inputs that keep the decompiler busy for > 3 s are excluded
+                 (probed in a forked child) and listed in the evidence.
+  S  (static)    AST scan of the whole package (explorerscript/antlr excluded) for mutable default arguments, module-level mutable
+                 bindings, class-level mutable attributes and `global` statements; every hit must be on the AUDITED list below
+                 with its discharge reason (some reasons are machine-checked: 'never mutated', 'shadowed in __init__'); an
+                 un-audited hit is a violation `C11:static:<kind>:<module>:<name>` without a failing input.
   G  (cache)     directed attack on graph_utils.find_first_common_next_vertex_in_edges_cache (keyed by id(graph)): leave a
                  stale entry behind (a conversion that falls back to SsbScript after a lookup), force id() recycling, decompile
                  a routine set whose lookup has the same edge-id string.
@@ -837,9 +849,100 @@ def de_bruijn(k: int, n: int) -> list[int]:
     return seq + seq[: n - 1]
 
 
-def _fresh(mp, fn, arg):
-    with mp.Pool(1) as p:
-        return p.apply(fn, (arg,))
+def _fresh_runner(fn, arg, conn) -> None:
+    try:
+        conn.send((True, fn(arg)))
+    except BaseException:  # noqa: BLE001 - reported to the parent, which re-raises (checker crash, exit 3)
+        import traceback
+
+        conn.send((False, traceback.format_exc()))
+    finally:
+        conn.close()
+
+
+class _Async:
+    def __init__(self, owner: "FreshProcesses", tasks: list, single: bool):
+        self.owner, self.tasks, self.single = owner, tasks, single
+
+    def get(self):
+        self.owner.wait(self.tasks)
+        out = [t["result"] for t in self.tasks]
+        return out[0] if self.single else out
+
+
+class FreshProcesses:
+    """Runs every task in a process of its own (spawn), at most n at a time.  multiprocessing.Pool(maxtasksperchild=1) was
+    observed to dead-lock with ~100 queued tasks (all workers idle, parent waiting), and it never notices a worker that died;
+    this scheduler is pumped from get()/apply()/map() and turns a dead worker into an exception."""
+
+    def __init__(self, mp, n: int):
+        from collections import deque
+
+        self.mp, self.n = mp, n
+        self.queue: "deque[dict]" = deque()
+        self.running: dict = {}
+
+    def __enter__(self) -> "FreshProcesses":
+        return self
+
+    def __exit__(self, *exc) -> None:
+        for conn, (proc, _t) in list(self.running.items()):
+            proc.terminate()
+            proc.join()
+            conn.close()
+        self.running.clear()
+        self.queue.clear()
+
+    def _start_more(self) -> None:
+        while self.queue and len(self.running) < self.n:
+            t = self.queue.popleft()
+            recv, send = self.mp.Pipe(False)
+            proc = self.mp.Process(target=_fresh_runner, args=(t["fn"], t["arg"], send))
+            proc.start()
+            send.close()
+            self.running[recv] = (proc, t)
+
+    def _pump(self, timeout: float) -> None:
+        from multiprocessing.connection import wait
+
+        self._start_more()
+        if not self.running:
+            return
+        for conn in wait(list(self.running), timeout):
+            proc, t = self.running.pop(conn)
+            try:
+                ok, val = conn.recv()
+            except (EOFError, OSError):
+                ok, val = False, f"worker process for {t['fn'].__name__} died without a result (exit code {proc.exitcode})"
+            conn.close()
+            proc.join()
+            t["done"], t["ok"], t["result"] = True, ok, val
+        self._start_more()
+
+    def wait(self, tasks: list) -> None:
+        while not all(t["done"] for t in tasks):
+            self._pump(1.0)
+        for t in tasks:
+            if not t["ok"]:
+                raise RuntimeError(f"task {t['fn'].__name__} failed in its worker process:\n{t['result']}")
+
+    def _submit(self, fn, arg) -> dict:
+        t = {"fn": fn, "arg": arg, "done": False, "ok": None, "result": None}
+        self.queue.append(t)
+        self._pump(0)
+        return t
+
+    def apply_async(self, fn, args: tuple) -> _Async:
+        return _Async(self, [self._submit(fn, args[0])], True)
+
+    def map_async(self, fn, items, chunksize: int = 1) -> _Async:
+        return _Async(self, [self._submit(fn, x) for x in items], False)
+
+    def apply(self, fn, args: tuple):
+        return self.apply_async(fn, args).get()
+
+    def map(self, fn, items, chunksize: int = 1) -> list:
+        return self.map_async(fn, items).get()
 
 
 def _minimise(mp_pool, root, pool, baseline, bad: dict) -> tuple[list[int], bool]:
@@ -869,6 +972,48 @@ def _minimise(mp_pool, root, pool, baseline, bad: dict) -> tuple[list[int], bool
     return best, True
 
 
+def _minimise_order(fresh, root: str, calls: list, before: list[int], i: int, alone: str) -> tuple[list[int], bool]:
+    """A short list of earlier calls after which call i differs from its result alone (each trial in a fresh process, the
+    trials of a round in parallel).  Step 1: 8-ary search for the shortest reproducing suffix of `before` (assumes that the
+    leak persists once it happened); step 2: ddmin on that suffix (bounded number of rounds)."""
+
+    def trial(cands: list[list[int]]) -> list[bool]:
+        digs = fresh.map(task_run_words, [(root, [calls[j] for j in h] + [calls[i]]) for h in cands], chunksize=1)
+        return [d[-1] != alone for d in digs]
+
+    lo, hi = 0, len(before)  # dropping the first lo calls reproduces (lo = 0: the recorded run); dropping hi (= all) does not
+    while hi - lo > 1:
+        cuts = sorted({lo + (hi - lo) * k // 8 for k in range(1, 8)} - {lo, hi})
+        if not cuts:
+            break
+        ok = trial([before[c:] for c in cuts])
+        good = [c for c, o in zip(cuts, ok) if o]
+        if good:
+            lo = max(good)
+        bad = [c for c, o in zip(cuts, ok) if not o and c > lo]
+        if bad:
+            hi = min(bad)
+    hist = before[lo:]
+    if not trial([hist])[0]:
+        return before[-40:], False
+    n = 2
+    for _round in range(10):
+        if len(hist) <= 1:
+            break
+        size = -(-len(hist) // n)
+        chunks = [hist[k : k + size] for k in range(0, len(hist), size)]
+        cands = [[x for c2 in chunks[:k] + chunks[k + 1 :] for x in c2] for k in range(len(chunks))]
+        ok = trial(cands)
+        pick = next((c for c, o in zip(cands, ok) if o), None)
+        if pick is not None:
+            hist, n = pick, max(n - 1, 2)
+        elif n >= len(hist):
+            break
+        else:
+            n = min(len(hist), n * 2)
+    return hist, True
+
+
 def run(ctx: Ctx) -> PropResult:
     import time
 
@@ -880,7 +1025,7 @@ def run(ctx: Ctx) -> PropResult:
     root = tempfile.mkdtemp(prefix="verif-C11-")
     mp = multiprocessing.get_context("spawn")
     try:
-        with mp.Pool(ctx.jobs, maxtasksperchild=1) as fresh:  # every task runs in a fresh process
+        with FreshProcesses(mp, ctx.jobs) as fresh:  # every task runs in a fresh process
             pool = fresh.apply(task_build_pool, ((root, ctx.thorough),))
             names = [c["name"] for c in pool]
             base = fresh.map(task_baseline, [(root, c) for c in pool], chunksize=1)
@@ -991,17 +1136,17 @@ def run(ctx: Ctx) -> PropResult:
             timing["H_minimise"] = round(time.time() - t0, 1)
             # ---- R
             rb = [b for ch in ar_R.get() for b in ch]
-            done = set()
+            done: dict = {}
             for b in sorted(rb, key=lambda b: len(b["order"])):
                 ci = b["call"]
                 prev = b["order"][-2] if len(b["order"]) > 1 else None
-                key = (ci, prev)
-                if key in done:
-                    continue
-                done.add(key)
+                key = (ci if ci < n_pool_c else -1, prev if prev is None or prev < n_pool_c else -1)
+                done[key] = done.get(key, 0) + 1
+                if done[key] > 2:
+                    continue  # one signature per (class of observed call, class of preceding call); two witnesses each
                 res.violations.append(
                     Violation(
-                        signature=f"C11:R:compile:{r_names[ci]}:differs-on-reused-instance-after:{r_names[prev] if prev is not None else 'nothing'}",
+                        signature=f"C11:R:compile:{'import-chain' if ci >= n_pool_c else r_names[ci]}:differs-on-reused-instance-after:{('import-chain' if prev >= n_pool_c else r_names[prev]) if prev is not None else 'nothing'}",
                         what=f"compile of '{r_names[ci]}' on a compiler instance already used for {[r_names[i] for i in b['order'][:-1]]} differs from a fresh instance",
                         input={"mode": "reuse", "order": [r_calls[i] for i in b["order"]]},
                         contract=CONTRACT_R,
@@ -1107,23 +1252,8 @@ def run(ctx: Ctx) -> PropResult:
                 minimal = False
                 if k_bad is not None:
                     before = o_orders[k_bad][: o_orders[k_bad].index(i)]
-                    lo, hi = 0, len(before)  # smallest suffix of the calls before i that still reproduces (assumes the leak persists)
-                    while lo < hi:
-                        mid = (lo + hi + 1) // 2  # try dropping the first `mid` calls
-                        d = fresh.apply(task_run_words, ((root, [o_calls[j] for j in before[mid:]] + [o_calls[i]]),))
-                        if d[-1] != alone:
-                            lo = mid
-                        else:
-                            hi = mid - 1
-                    suffix = before[lo:]
-                    if suffix:
-                        d1 = fresh.apply(task_run_words, ((root, [o_calls[suffix[0]], o_calls[i]]),))
-                        if d1[-1] != alone:
-                            hist_calls, minimal = [o_calls[suffix[0]]], True
-                        else:
-                            hist_calls = [o_calls[j] for j in suffix[:40]]
-                            dd = fresh.apply(task_run_words, ((root, hist_calls + [o_calls[i]]),))
-                            minimal = dd[-1] != alone
+                    hist_idx, minimal = _minimise_order(fresh, root, o_calls, before, i, alone)
+                    hist_calls = [o_calls[j] for j in hist_idx]
                 res.violations.append(
                     Violation(
                         signature="C11:O:decompile:result-depends-on-order-of-earlier-decompilations",
@@ -1248,10 +1378,14 @@ def task_corpus_calls(args) -> list[dict]:
 
 def replay(record: dict, ctx: Ctx) -> bool:
     inp = record["input"]
+    if record["signature"].startswith("C11:static:"):
+        audit = static_audit(os.path.dirname(os.path.dirname(_explorerscript_file())))
+        sigs = {f"C11:static:{k}:{m}:{n}" for k, m, n, _ in audit["unaudited"]} | {f"C11:static:{k}:{m}:{n}:discharge-condition-failed" for k, m, n, _ in audit["failed_conditions"]}
+        return record["signature"] in sigs
     root = tempfile.mkdtemp(prefix="verif-C11r-")
     mp = multiprocessing.get_context("spawn")
     try:
-        with mp.Pool(2, maxtasksperchild=1) as fresh:
+        with FreshProcesses(mp, 2) as fresh:
             mode = inp.get("mode", "history")
             if mode == "history":
                 alone = fresh.apply(task_baseline, ((root, inp["observed"]),))[0]
